@@ -27,7 +27,7 @@ PatPool == << <<98,97,114>>, <<97>>, <<94,97>>, <<97,36>>, <<92,60,98,97,114>>, 
               <<40,97,124,98,41,43>>, <<91,94,97,93>>, <<119,111,114,100>>, <<>>, <<233>>, <<32,32>>, <<111,111>> >>
 CharPool == <<97, 98, 32, 40, 41, 46, 120, 233, 111, 119, 123, 125, 9>>
 KeyPool == << <<120>>, <<233,32,97>>, <<97,98,8,99>>, <<97,32,98,98,23,99>>, <<120,121,21,122>>, <<97,10,98>>, <<10>>, <<>>,
-              <<20,120>>, <<97,10,4,98>>, <<22,9,120>>, <<119,49,32,119,50>>, <<32,32,97,10,98,10,99>>, <<28450>>, <<40,41>>, <<97,10,32,98,10,99>> >>
+              <<20,120>>, <<97,10,4,98>>, <<22,9,120>>, <<97,22,0,98>>, <<119,49,32,119,50>>, <<32,32,97,10,98,10,99>>, <<28450>>, <<40,41>>, <<97,10,32,98,10,99>> >>
 RegPool == <<0, 0, 0, 97, 98, 65>>
 Counts == <<0, 0, 0, 0, 2, 3, 9, 1>>
 
